@@ -15,7 +15,9 @@ Theorem C15_indentation : forall sp l, all_space sp = true -> parse_line (sp ++ 
 Proof. exact parse_line_lead_spaces. Qed.
 Theorem C15_trailing_blanks : forall l sp, all_space sp = true -> parse_line (l ++ sp)%string = parse_line l.
 Proof. exact parse_line_trail_spaces. Qed.
-Theorem C15_trailing_comment : forall l c, plain l = true -> parse_line (l ++ " // " ++ c)%string = parse_line l.
+(* (l must not end with the token base64 / b64: after these keywords "// c" is base64 data, not a comment) *)
+Theorem C15_trailing_comment : forall l c, plain l = true -> last_tok_b64 l = false ->
+  parse_line (l ++ " // " ++ c)%string = parse_line l.
 Proof. exact parse_line_comment. Qed.
 (* `int c` and `pushint c` are the same integer push for every analysis *)
 Theorem C15_pushint : forall intcs a, is_int_push_ins intcs (IPushInt a) = is_int_push_ins intcs (IInt a).
